@@ -3,6 +3,7 @@
 package sym
 
 import (
+	"crypto/sha1"
 	"fmt"
 	"math"
 	"math/big"
@@ -60,6 +61,36 @@ type Term struct {
 	Name string   // var name / raw text
 	Vars []*Term  // raw: variables mentioned
 	n    int      // node count estimate
+	key  string   // structural hash (memoised)
+}
+
+// Key returns a structural hash of the term (equal structure => equal key).
+func (t *Term) Key() string {
+	if t.key != "" {
+		return t.key
+	}
+	h := sha1.New()
+	switch t.Op {
+	case "const":
+		fmt.Fprintf(h, "c|%d|%d|", t.S.K, t.S.W)
+		if t.S.K == KFP {
+			fmt.Fprintf(h, "%x", math.Float64bits(t.F))
+		} else {
+			h.Write(t.C.Bytes())
+			fmt.Fprintf(h, "|%d", t.C.Sign())
+		}
+	case "var":
+		fmt.Fprintf(h, "v|%s|%d|%d", t.Name, t.S.K, t.S.W)
+	case "raw":
+		fmt.Fprintf(h, "r|%s", t.Name)
+	default:
+		fmt.Fprintf(h, "o|%s|%s|%v|%d|%d", t.Op, t.Name, t.P, t.S.K, t.S.W)
+		for _, a := range t.Args {
+			h.Write([]byte(a.Key()))
+		}
+	}
+	t.key = string(h.Sum(nil))
+	return t.key
 }
 
 func (t *Term) IsConst() bool { return t.Op == "const" }
@@ -95,9 +126,9 @@ func BVConst(v *big.Int, w int) *Term {
 	return &Term{S: SBV(w), Op: "const", C: normBV(v, w)}
 }
 func BVConst64(v int64, w int) *Term { return BVConst(big.NewInt(v), w) }
-func IntConst(v *big.Int) *Term     { return &Term{S: SInt, Op: "const", C: new(big.Int).Set(v)} }
-func IntConst64(v int64) *Term      { return IntConst(big.NewInt(v)) }
-func FPConst(f float64) *Term       { return &Term{S: SFP, Op: "const", F: f} }
+func IntConst(v *big.Int) *Term      { return &Term{S: SInt, Op: "const", C: new(big.Int).Set(v)} }
+func IntConst64(v int64) *Term       { return IntConst(big.NewInt(v)) }
+func FPConst(f float64) *Term        { return &Term{S: SFP, Op: "const", F: f} }
 
 func Var(name string, s Sort) *Term { return &Term{S: s, Op: "var", Name: name} }
 
@@ -532,10 +563,18 @@ func fpBin(op string, a, b *Term, f func(x, y float64) float64) *Term {
 	t.Name = "RNE"
 	return t
 }
-func FPAdd(a, b *Term) *Term { return fpBin("fp.add", a, b, func(x, y float64) float64 { return x + y }) }
-func FPSub(a, b *Term) *Term { return fpBin("fp.sub", a, b, func(x, y float64) float64 { return x - y }) }
-func FPMul(a, b *Term) *Term { return fpBin("fp.mul", a, b, func(x, y float64) float64 { return x * y }) }
-func FPDiv(a, b *Term) *Term { return fpBin("fp.div", a, b, func(x, y float64) float64 { return x / y }) }
+func FPAdd(a, b *Term) *Term {
+	return fpBin("fp.add", a, b, func(x, y float64) float64 { return x + y })
+}
+func FPSub(a, b *Term) *Term {
+	return fpBin("fp.sub", a, b, func(x, y float64) float64 { return x - y })
+}
+func FPMul(a, b *Term) *Term {
+	return fpBin("fp.mul", a, b, func(x, y float64) float64 { return x * y })
+}
+func FPDiv(a, b *Term) *Term {
+	return fpBin("fp.div", a, b, func(x, y float64) float64 { return x / y })
+}
 func FPNeg(a *Term) *Term {
 	if a.IsConst() {
 		return FPConst(-a.F)
